@@ -225,6 +225,11 @@ def vis_ids(tree) -> list:
     return out
 
 
+def vis_shape(tree) -> list:
+    """Nested form for the canonical state: copies recurse into children, so [1[2]] and [1, 2] have different futures."""
+    return [[g.id, vis_shape(g.child_groups)] for g in tree]
+
+
 class Model(bfs.Model):
     def __init__(self, part: str, maxh: int) -> None:
         self.part = part
@@ -340,10 +345,10 @@ class Model(bfs.Model):
                         sorted(vmf.face_id._used), vmf.face_id.search_pos, sorted(vmf.group_id._used), sorted(vmf.vis_id._used),
                         sorted(vmf.node_id._used), vmf.node_id.search_pos,
                         [(e.id, e['nodeid', None], [(s.id, [f.id for f in s.sides]) for s in e.solids]) for e in vmf.entities],
-                        [(s.id, [f.id for f in s.sides]) for s in vmf.brushes], sorted(vmf.groups), vis_ids(vmf.vis_tree), vmf.spawn.id))
+                        [(s.id, [f.id for f in s.sides]) for s in vmf.brushes], sorted(vmf.groups), vis_shape(vmf.vis_tree), vmf.spawn.id))
         out.append([(None if e is None else (e.id, _in_map(e), e['nodeid', None])) for e in st.ents])
         out.append([(None if s is None else (s.id, _brush_in_map(s), [f.id for f in s.sides])) for s in st.solids])
-        out.append([g.id for g in st.vis])
+        out.append([[g.id, vis_shape(g.child_groups)] for g in st.vis])
         out.append([g.id for g in st.groups])
         out.append([sorted((k, f.var, f.value, f.id) for k, f in e.fixup._fixup.items()) for e in st.fix])
         out.append(len(st.problems))
@@ -400,7 +405,7 @@ class Model(bfs.Model):
         acc.outcome(repr(self.canon(st)[0][:11])[:160])
 
 
-PARTS = {'ent': (3, 5, 6), 'solid': (3, 4, 5), 'group': (3, 4, 5), 'fixup': (2, 4, 5)}   # maxh, quick depth, thorough depth
+PARTS = {'ent': (3, 5, 6), 'solid': (3, 4, 5), 'group': (3, 5, 6), 'fixup': (2, 4, 5)}   # maxh, quick depth, thorough depth
 
 
 def run(ctx: core.Ctx) -> None:
